@@ -1,21 +1,69 @@
-//! C19: response header policy.  The application adds headers whose names are reserved for the library (Connection,
-//! Trailer, Transfer-Encoding, Upgrade) in several letter cases, plus an ordinary one: the reserved ones must not reach
-//! the wire, the ordinary one must, exactly once.
+//! C19: response header policy, through the public API.
+//!  (a) headers whose names are reserved for the library (Connection, Trailer, Transfer-Encoding, Upgrade), in several letter
+//!      cases, never reach the wire; an ordinary header does, exactly once; the order of ordinary headers is kept;
+//!  (b) every response carries exactly one Date (a valid HTTP-date) and exactly one Server header -- the application's own
+//!      when it supplied one;
+//!  (c) a later Content-Type replaces an earlier one whatever the letter case of either, so at most one is sent;
+//!  (d) a supplied Content-Length only sets the declared body length (it is not echoed as a second header).
 use verif_replay::*;
-fn main() {
+
+fn exchange(build: impl FnOnce() -> tiny_http::Response<std::io::Cursor<Vec<u8>>>) -> String {
     let server = tiny_http::Server::http("127.0.0.1:0").unwrap();
     let mut c = connect(&server);
     send(&mut c, b"GET /x HTTP/1.1\r\nHost: a\r\nConnection: close\r\n\r\n");
     let rq = server.recv().unwrap();
-    let mut resp = tiny_http::Response::from_string("hello");
-    for name in ["Connection", "connection", "CONNECTION", "Trailer", "trailer", "Transfer-Encoding", "transfer-encoding", "TRANSFER-ENCODING", "Upgrade", "upgrade"] {
-        resp.add_header(tiny_http::Header::from_bytes(name.as_bytes(), &b"injected"[..]).unwrap());
-    }
-    resp.add_header(tiny_http::Header::from_bytes(&b"X-Ordinary"[..], &b"kept"[..]).unwrap());
-    rq.respond(resp).unwrap();
+    rq.respond(build()).unwrap();
     let out = String::from_utf8_lossy(&read_available(&mut c)).to_string();
-    let head = out.split("\r\n\r\n").next().unwrap_or("").to_string();
+    out.split("\r\n\r\n").next().unwrap_or("").to_string()
+}
+fn values(head: &str, name: &str) -> Vec<String> {
+    head.lines().skip(1).filter_map(|l| { let mut p = l.splitn(2, ':'); let n = p.next()?; let v = p.next()?; if n.eq_ignore_ascii_case(name) { Some(v.trim().to_string()) } else { None } }).collect()
+}
+fn hdr(n: &str, v: &str) -> tiny_http::Header { tiny_http::Header::from_bytes(n.as_bytes(), v.as_bytes()).unwrap() }
+fn is_http_date(v: &str) -> bool {
+    // IMF-fixdate: "Sun, 06 Nov 1994 08:49:37 GMT"
+    let b = v.as_bytes();
+    v.len() == 29 && v.ends_with(" GMT") && &v[3..5] == ", " && b[5].is_ascii_digit() && b[6].is_ascii_digit() && b[7] == b' '
+        && ["Jan", "Feb", "Mar", "Apr", "May", "Jun", "Jul", "Aug", "Sep", "Oct", "Nov", "Dec"].contains(&&v[8..11])
+        && ["Mon", "Tue", "Wed", "Thu", "Fri", "Sat", "Sun"].contains(&&v[0..3])
+        && v[12..16].bytes().all(|c| c.is_ascii_digit()) && b[19] == b':' && b[22] == b':'
+}
+fn main() {
+    let mut bad = Vec::new();
+    // (a)
+    let head = exchange(|| {
+        let mut resp = tiny_http::Response::from_string("hello");
+        for name in ["Connection", "connection", "CONNECTION", "Trailer", "trailer", "Transfer-Encoding", "transfer-encoding", "TRANSFER-ENCODING", "Upgrade", "upgrade"] {
+            resp.add_header(hdr(name, "injected"));
+        }
+        resp.add_header(hdr("X-Ordinary", "kept"));
+        resp.add_header(hdr("X-Second", "2"));
+        resp.add_header(hdr("X-Ordinary", "again"));
+        resp
+    });
     let injected: Vec<&str> = head.lines().filter(|l| l.to_ascii_lowercase().ends_with(": injected")).collect();
-    let ordinary = head.lines().filter(|l| l.eq_ignore_ascii_case("X-Ordinary: kept")).count();
-    verdict(injected.is_empty() && ordinary == 1, &format!("reserved headers on the wire: {:?}; X-Ordinary occurrences: {}", injected, ordinary));
+    if !injected.is_empty() { bad.push(format!("reserved headers on the wire: {:?}", injected)); }
+    let order: Vec<&str> = head.lines().filter(|l| l.starts_with("X-")).collect();
+    if order != ["X-Ordinary: kept", "X-Second: 2", "X-Ordinary: again"] { bad.push(format!("ordinary headers sent as {:?}", order)); }
+    // (b) library-supplied Date / Server
+    let d = values(&head, "Date");
+    if d.len() != 1 || !is_http_date(&d[0]) { bad.push(format!("Date header(s) of a plain response: {:?}", d)); }
+    let s = values(&head, "Server");
+    if s.len() != 1 { bad.push(format!("Server header(s) of a plain response: {:?}", s)); }
+    // (b) application-supplied Date / Server, in another letter case
+    let head = exchange(|| tiny_http::Response::from_string("x").with_header(hdr("date", "Sun, 06 Nov 1994 08:49:37 GMT")).with_header(hdr("SERVER", "mine")));
+    let (d, s) = (values(&head, "Date"), values(&head, "Server"));
+    if d != ["Sun, 06 Nov 1994 08:49:37 GMT"] { bad.push(format!("application supplied its own Date: sent {:?}", d)); }
+    if s != ["mine"] { bad.push(format!("application supplied its own Server: sent {:?}", s)); }
+    // (c) Content-Type replacement, all case combinations (from_string itself sets `Content-Type: text/plain; charset=UTF-8`)
+    for (n1, n2) in [("Content-Type", "Content-Type"), ("content-type", "Content-Type"), ("Content-Type", "CONTENT-TYPE"), ("CONTENT-type", "content-TYPE")] {
+        let head = exchange(|| tiny_http::Response::from_string("x").with_header(hdr(n1, "a/one")).with_header(hdr(n2, "b/two")));
+        let ct = values(&head, "Content-Type");
+        if ct != ["b/two"] { bad.push(format!("Content-Type set as `{}` then as `{}`: sent {:?}", n1, n2, ct)); }
+    }
+    // (d) Content-Length supplied by the application
+    let head = exchange(|| tiny_http::Response::from_string("hello").with_header(hdr("content-length", "5")));
+    let cl = values(&head, "Content-Length");
+    if cl != ["5"] { bad.push(format!("application supplied Content-Length 5 for a 5-byte body: sent {:?}", cl)); }
+    verdict(bad.is_empty(), &format!("header policy: {}", if bad.is_empty() { "as the property says".into() } else { bad.join(" | ") }));
 }
